@@ -212,6 +212,17 @@ func c10Run(t *testing.T, c c10Case) (res c10Result) {
 					a.resp <- c10Outcome{err: errors.New("dial refused")}
 					return
 				}
+				if how == "dialTimeout" || how == "dialCanceled" {
+					// what a real dial returns on an i/o timeout (it matches context.DeadlineExceeded under errors.Is) or when
+					// the dialler's own context - not the pool's lifetime - was cancelled
+					failureKinds[how] = true
+					inner := error(context.DeadlineExceeded)
+					if how == "dialCanceled" {
+						inner = context.Canceled
+					}
+					a.resp <- c10Outcome{err: &net.OpError{Op: "dial", Net: "tcp", Err: inner}}
+					return
+				}
 				near, far := net.Pipe()
 				tc := &c10TrackConn{Conn: near}
 				h := &c10Handed{how: how, far: far, near: near, nearSeen: tc}
@@ -448,7 +459,7 @@ const c10Rule = "the real muxProvider + multiMuxManager + ManagedMuxSession with
 func c10Gen(t *rapid.T) c10Case {
 	c := c10Case{N: rapid.IntRange(1, 4).Draw(t, "n"), Server: rapid.Bool().Draw(t, "server")}
 	n := rapid.IntRange(1, vfshared.Scale(14, 30)).Draw(t, "nops")
-	hows := []string{"healthy", "healthy", "healthy", "dialErr", "sessionErr", "eof", "silent", "garbage", "writeEOF", "diesBeforeRegistration"}
+	hows := []string{"healthy", "healthy", "healthy", "dialErr", "dialTimeout", "dialCanceled", "sessionErr", "eof", "silent", "garbage", "writeEOF", "diesBeforeRegistration"}
 	for i := 0; i < n; i++ {
 		x := rapid.IntRange(0, 99).Draw(t, "op")
 		switch {
